@@ -61,11 +61,9 @@ func loadAll() (*Program, error) {
 		return nil, err
 	}
 	files := contractFiles(repoDir)
-	if len(files) == 0 {
-		// fall back to the mirror kept in /verif (a tree without the hook commit)
-		m, _ := filepath.Glob(filepath.Join(verifDir, "contracts", "verif_contracts*.go"))
-		files = m
-	}
+	// contracts of dependency functions whose bodies are verified too (they are not part of the repository)
+	m, _ := filepath.Glob(filepath.Join(verifDir, "contracts", "*_contracts.go"))
+	files = append(files, m...)
 	c, err := LoadContracts(files)
 	if err != nil {
 		return nil, err
@@ -129,6 +127,15 @@ func (p *Program) generate(only string) []*Obligation {
 		}
 		if fc.Lemma {
 			obls = append(obls, p.runLemma(fc)...)
+			continue
+		}
+		if f := p.depFunction(n); f != nil && !seen[n] {
+			seen[n] = true
+			if only == "" || only == n {
+				ex := p.newExec(f, fc)
+				ex.run()
+				obls = append(obls, ex.obls...)
+			}
 			continue
 		}
 		if !seen[n] && n != "init" {
